@@ -16,6 +16,7 @@ Layer 1 (depth 1, input grids; one system per target kind and operation family)
 Layer 2 (histories)
     c09.closure.v2             one SparseVector of size 2 (+ constant operands), values on a dyadic lattice,
                                searched until the frontier is empty = ALL histories of ANY length in the lattice
+    c09.closure.vw             two interacting vectors of size 2, closure (all histories of any length) on a small lattice
     c09.heap.n{2,3}            heap {v, w, u(size 1), m (logical), A (2 x n)} with in-place operations between
                                heap members (incl. an object with itself) and constants, depth 2 (quick) / 3 (thorough)
     c09.heap.alias             heap {v, A, r} where r IS the first row of A (operand overlapping its in-place target)
@@ -271,9 +272,12 @@ def dg(x):
     S = sp()
     cls = x.__class__
     if cls is S.SparseVector:
-        return ('V', x.size, tuple((repr(k), repr(v)) for k, v in sorted(x.dct.items(), key=lambda kv: repr(kv[0]))), bool(x.read_only))
+        try: items = tuple(sorted(x.dct.items()))
+        except TypeError: items = tuple(sorted(x.dct.items(), key=repr))
+        return ('V', x.size, items, bool(x.read_only))
     if cls is S.SparseLogicalVector:
-        return ('L', x.size, tuple(sorted(map(repr, x.set))))
+        try: return ('L', x.size, tuple(sorted(x.set)))
+        except TypeError: return ('L', x.size, tuple(sorted(x.set, key=repr)))
     if cls is S.SparseArray:
         return ('A', tuple(dg(r) for r in x.rows))
     if isinstance(x, np.ndarray): return ('nd', x.shape, str(x.dtype), x.tobytes())
@@ -884,6 +888,18 @@ def index_fam(ix):
     return 'mask'
 
 
+def whole_rows(ix, ndim):
+    """True when the index selects complete rows (vector: the open slice; array: no column index or an open column slice):
+    such an assignment replaces the contents of each selected row (`row[:] = value`)."""
+    if ix[0] == 'tuple':
+        parts = ix[1]
+        if len(parts) == 1: return ndim == 1 and whole_rows(parts[0], 1) or ndim == 2
+        last = parts[-1]
+        return last[0] == 'slice' and tuple(last[1]) == (None, None)
+    if ndim == 2: return ix[0] != 'barr2' and ix[0] != 'bsa'
+    return ix[0] == 'slice' and tuple(ix[1]) == (None, None)
+
+
 def value_class(ishape, vshape):
     """relation between the shape selected by the index and the shape of the assigned value"""
     if vshape == (): return 'scalar'
@@ -1040,7 +1056,8 @@ class IndexSystem(OpsSystem):
             try: ishape = td[ni].shape
             except Exception: ishape = None
             match = dict(fam='setitem', tk=self.tk, ifam=index_fam(a[1]), icat=icat,
-                         vcls=value_class(ishape, vshape) if ishape is not None else 'n/a', vkc=operand_class(a[2][0]))
+                         vcls=value_class(ishape, vshape) if ishape is not None else 'n/a', vkc=operand_class(a[2][0]),
+                         whole=whole_rows(a[1], td.ndim))
             c = Case(match, T, td, V, vd, inplace=True, grow_ok=None, result='any', fine=dict(index=icls, vk=a[2][0], vshape=repr(vshape)))
             def ref(d, v):
                 d[ni] = v
@@ -1192,6 +1209,17 @@ class CtorSystem(System):
 
 def ro_actions(tk, tier):
     acts = []
+    if tk in ('SLV', 'SAb'):
+        oth = [('pb', True), ('pb', False), ('a1b', (True, False)), ('a1b', (False, False)), ('l1b', (True, True)), ('SLV', (False, True)),
+               ('SLV', (True,)), ('a2b', ((True, False), (False, True))), ('SAb', ((True, True), (False, True))), ('SAb', ((True, False),))]
+        for op in ('iadd', 'imul', 'iand', 'ior', 'ixor'):
+            for o in oth: acts.append(('iop', op, o))
+        idx = vec_indices(2, 'quick') if tk == 'SLV' else arr_indices(2, 2, 'quick')
+        vals = [('pb', True), ('pb', False), ('a1b', (True, False)), ('a1b', (False,)), ('SLV', (False, True)), ('a2b', ((False, True), (True, False)))]
+        for ix in idx:
+            for v in vals: acts.append(('set', ix, v))
+        acts += [('from_flat_array',), ('copy_like',)] + ([('clear',)] if tk == 'SAb' else [])
+        return acts
     oth = [('pf', 1.0), ('pf', 0.0), ('pf', 0.5), ('pi', 2), ('a1', (1.0, -1.0)), ('a1', (0.0, 0.5)), ('l1', (1.0, 1.0)), ('SV', (1.0, 0.0)),
            ('SV', (-1.0, 0.5)), ('SV', (1.0,)), ('a2', ((1.0, 1.0), (0.5, -1.0))), ('SA', ((1.0, 1.0), (0.5, -1.0))), ('a1', (1.0,)),
            ('a2', ((1.0, -1.0),)), ('SA', ((1.0, -1.0),))]
@@ -1221,6 +1249,12 @@ class ReadOnlySystem(System):
         self._tier = tier
         if self.tk == 'SV':
             return rot([('SV', d) for d in _grid((2,), VALS)], seed)
+        if self.tk in ('SLV', 'SAb'):
+            # logical sparse objects can only be made read-only when SparseLogicalVector carries the flag; where it does not
+            # (SparseArray.setflags(0) raises AttributeError on logical rows) there is no read-only logical object to examine
+            if 'read_only' not in getattr(sp().SparseLogicalVector, '__slots__', ()): return []
+            if self.tk == 'SLV': return rot([('SLV', d) for d in _grid((2,), BOOLS)], seed)
+            return rot([('SAb', d) for d in _grid((2, 2), BOOLS)], seed)
         return rot([('SA', d) for d in _grid((2, 2), VALS2)] + [('SA', ((1.0, -1.0), (0.5, 0.0)))], seed)
     def build(self, config):
         st = St(); st.tspec = config
@@ -1258,7 +1292,8 @@ class ReadOnlySystem(System):
             elif kind == 'remove_negatives': real = lambda: T.remove_negatives()
             elif kind == 'from_flat_array': real = lambda: T.from_flat_array(np.ones(td.size))
             elif kind == 'copy_like':
-                src, _ = build_operand((self.tk, tuple(map(tuple, (td + 1).tolist())) if td.ndim == 2 else tuple((td + 1).tolist())))
+                other = ~td if td.dtype == bool else td + 1
+                src, _ = build_operand((self.tk, tuple(map(tuple, other.tolist())) if td.ndim == 2 else tuple(other.tolist())))
                 real = lambda: T.copy_like(src)
             elif kind == 'mix_from':
                 src, _ = build_operand(('SV', (1.0, 0.5)))
@@ -1286,7 +1321,7 @@ class ReadOnlySystem(System):
 # ---- Layer 2: histories ------------------------------------------------------------------------------------
 
 class HeapSt:
-    __slots__ = ('objs', 'mir', 'names', 'nontriv', 'okey', 'lat', 'cfg', 'hist')
+    __slots__ = ('objs', 'mir', 'names', 'nontriv', 'okey', 'lat', 'cfg', 'hist', 'dirty')
 
 _MEMO = {}          # (system name, config, history) -> snapshot of a state reached by an accepted transition (per process)
 _MEMO_MAX = 150_000
@@ -1374,6 +1409,7 @@ class HeapSystem(System):
         st.nontriv = False; st.okey = None
         st.lat = self._lq if self._tier == 'quick' else self._lt
         st.cfg = config; st.hist = ()
+        st.dirty = None            # None: check every object (initial state)
         return st
 
     # -- alphabet
@@ -1381,6 +1417,9 @@ class HeapSystem(System):
         n = self.n
         if self.consts == 'tiny':
             return [('pf', -1.0), ('pf', 0.5), ('SV', (1.0,) + (0.0,) * (n - 1)), ('a1', (-1.0,) * n)]
+        if self.consts == 'pair':
+            return [('pf', -1.0), ('pf', 0.5), ('pf', 2.0), ('pf', 1.0), ('SV', (1.0,) + (0.0,) * (n - 1)), ('a1', (-1.0,) * n),
+                    ('a1', (0.0,) * (n - 1) + (2.0,)), ('SV', (-1.0,) * n), ('SV', (0.5,)), ('SV', (0.0,)), ('l1', (2.0, -1.0)[:n])]
         cs = [('pf', 1.0), ('pf', -1.0), ('pf', 0.5), ('pf', 2.0), ('pf', 0.0), ('pf', -0.5)]
         vec = [(1.0,) + (0.0,) * (n - 1), (-1.0,) * n, (0.0,) * (n - 1) + (0.5,), (2.0,) + (-1.0,) * (n - 1), (0.0,) * n]
         if self.consts == 'full':
@@ -1401,6 +1440,20 @@ class HeapSystem(System):
         acts = []
         cs = self._consts(tier)
         fl = [m for m in self.members if m in ('v', 'w', 'u', 'A')]
+        if self.consts == 'pair':
+            # two interacting vectors, every in-place kernel family (scalar / dense / sparse / length-1 operand, the other heap member and itself)
+            for t in self.members:
+                for op in ('iadd', 'isub', 'imul', 'itruediv'):
+                    for o in self.members: acts.append(('iop', t, op, ('heap', o)))
+                    for c in cs: acts.append(('iop', t, op, c))
+                o = next(x for x in self.members if x != t)
+                acts += [('set', t, ('int', 0), ('pf', 0.0)), ('set', t, ('int', n - 1), ('pf', 1.0)), ('set', t, ('int', 0), ('pf', -0.5)),
+                         ('set', t, ('slice', (None, None)), ('heap', o)), ('set', t, ('slice', (None, None)), ('pf', 0.0)),
+                         ('set', t, ('barr', (False,) * (n - 1) + (True,)), ('pf', -1.0)), ('set', t, ('list', (0, n - 1)), ('pf', 0.0)),
+                         ('call', t, 'remove_negatives'), ('call', t, 'clear'), ('copy_like', t, o),
+                         ('mix_from', t, tuple(self.members)), ('mix_from', t, (t, t)), ('mix_from', t, (o, o))]
+            self._acts[tier] = acts
+            return acts
         if self.consts == 'tiny':
             # small alphabet for the deep search: no division (nothing leaves the NumPy domain), every operand pairing of the heap
             for t in self.members:
@@ -1476,8 +1529,10 @@ class HeapSystem(System):
         return tuple(out)
 
     def invariants(self, st):
+        # the objects that the last step did not target are known to be unchanged (their complete digests are compared in
+        # _others_unchanged), so the state oracle only has to re-examine the target (and the object it shares rows with)
         out = []
-        for nm in st.names:
+        for nm in (st.names if st.dirty is None else st.dirty):
             o = st.objs[nm]
             p = repr_problems(o)
             if p:
@@ -1503,8 +1558,10 @@ class HeapSystem(System):
                 st.objs[nm] = _unsnap_one(r); st.mir[nm] = mir.copy()
             if 'r' in st.names:
                 st.objs['r'] = st.objs['A'].rows[0]; st.mir['r'] = st.mir['A'][0]
-            st.hist = key[3]; st.okey = okey; st.nontriv = nontriv
+            st.hist = key[3]; st.okey = okey; st.nontriv = nontriv; st.dirty = []
             return obs
+        t = a[1]
+        st.dirty = [nm for nm in st.names if nm == t or {nm, t} == {'A', 'r'}]
         obs = self._step(st, a)
         st.hist = key[3]
         if len(_MEMO) > _MEMO_MAX: _MEMO.clear()
@@ -1610,9 +1667,11 @@ SYSTEMS = [
     UnarySystem('SV'), UnarySystem('SLV'), UnarySystem('SA'), UnarySystem('SAb'),
     IndexSystem('SV'), IndexSystem('SLV'), IndexSystem('SA'), IndexSystem('SAb'),
     CtorSystem(),
-    ReadOnlySystem('SV'), ReadOnlySystem('SA'),
+    ReadOnlySystem('SV'), ReadOnlySystem('SA'), ReadOnlySystem('SLV'), ReadOnlySystem('SAb'),
     # closure: every history of any length of one vector of size 2 inside the lattice
     HeapSystem('c09.closure.v2', 2, ('v',), None, None, consts='full', tcap_q=60, tcap_t=480),
+    # closure over TWO interacting vectors of size 2 (v op= w, w op= v, copy_like, mix_from, whole assignment): all histories of any length
+    HeapSystem('c09.closure.vw', 2, ('v', 'w'), None, None, consts='pair', lattice_q=(1, 2), lattice_t=(4, 6), tcap_q=60, tcap_t=240),
     HeapSystem('c09.heap.n2', 2, ('v', 'w', 'u', 'm', 'A'), 2, 3, consts='small', tcap_q=60, tcap_t=200),
     HeapSystem('c09.heap.n3', 3, ('v', 'w', 'm', 'A'), 2, 3, consts='small', tcap_q=60, tcap_t=200),
     # deep search over a small alphabet (no division): depth 3 (quick) / 6 (thorough, or the time cap)
